@@ -1013,34 +1013,43 @@ class PDFDocument:
         xrefs: List[PDFBaseXRef],
     ) -> None:
         """Reads XRefs from the given location."""
-        parser.seek(start)
-        parser.reset()
-        try:
-            (pos, token) = parser.nexttoken()
-        except PSEOF:
-            raise PDFNoValidXRef("Unexpected EOF")
-        log.debug("read_xref_from: start=%d, token=%r", start, token)
-        if isinstance(token, int):
-            # XRefStream: PDF-1.5
-            parser.seek(pos)
+        # The sections are chained through XRefStm and Prev offsets. They are
+        # followed with an explicit stack (a long history of incremental
+        # updates must not exhaust the recursion limit) and every offset is
+        # read once (a Prev pointing back into the chain must not loop).
+        visited: Set[int] = set()
+        pending = [start]
+        while pending:
+            start = pending.pop()
+            if start in visited:
+                continue
+            visited.add(start)
+            parser.seek(start)
             parser.reset()
-            xref: PDFBaseXRef = PDFXRefStream()
-            xref.load(parser)
-        else:
-            if token is parser.KEYWORD_XREF:
-                parser.nextline()
-            xref = PDFXRef()
-            xref.load(parser)
-        xrefs.append(xref)
-        trailer = xref.get_trailer()
-        log.debug("trailer: %r", trailer)
-        if "XRefStm" in trailer:
-            pos = int_value(trailer["XRefStm"])
-            self.read_xref_from(parser, pos, xrefs)
-        if "Prev" in trailer:
-            # find previous xref
-            pos = int_value(trailer["Prev"])
-            self.read_xref_from(parser, pos, xrefs)
+            try:
+                (pos, token) = parser.nexttoken()
+            except PSEOF:
+                raise PDFNoValidXRef("Unexpected EOF")
+            log.debug("read_xref_from: start=%d, token=%r", start, token)
+            if isinstance(token, int):
+                # XRefStream: PDF-1.5
+                parser.seek(pos)
+                parser.reset()
+                xref: PDFBaseXRef = PDFXRefStream()
+                xref.load(parser)
+            else:
+                if token is parser.KEYWORD_XREF:
+                    parser.nextline()
+                xref = PDFXRef()
+                xref.load(parser)
+            xrefs.append(xref)
+            trailer = xref.get_trailer()
+            log.debug("trailer: %r", trailer)
+            if "Prev" in trailer:
+                # find previous xref (after the XRefStm section, if any)
+                pending.append(int_value(trailer["Prev"]))
+            if "XRefStm" in trailer:
+                pending.append(int_value(trailer["XRefStm"]))
 
 
 class PageLabels(NumberTree):
